@@ -18,6 +18,7 @@ pub const SEEDS: &[(&str, &str)] = &[
     ("let_else", "fn f(o: Option<u8>) -> u8 { let Some(x) = o else { return 0; }; x }\n"),
     ("for_span", "fn f(s: Span<u8>) -> u8 { let mut t = 0; for x in s { t += *x; } t }\n"),
     ("trait_ty", "trait A { type X; const C: u8; fn m() -> Self::X; }\nimpl B of A { type X = u8; const C: u8 = 2; fn m() -> u8 { Self::C } }\n"),
+    ("plugins", "#[panic_with('e', bar)]\nfn foo(a: felt252, ref b: u8) -> Option<felt252> { Option::Some(a) }\n#[generate_trait(trait_attrs(doc(hidden)))]\nimpl A of B { fn m(self: @u8) -> u8 { *self } }\n#[derive(Drop, Clone, PartialEq, Serde, Default, Debug, Hash, Destruct, PanicDestruct)]\nstruct D { a: u8, b: felt252 }\n#[derive(Copy, Drop, Default)]\nenum E { #[default] X, Y: u8 }\n#[cfg(test)]\nmod t { #[test] #[should_panic(expected: ('x',))] #[available_gas(100)] fn tt() { assert(false, 'x'); } }\n#[feature(\"f\")]\n#[inline(always)]\n#[must_use]\nfn g() -> u8 { consteval_int!(1 + 2) }\n"),
     ("starknet_like", "#[derive(Drop, Serde)]\nstruct P { x: u128 }\n#[generate_trait]\nimpl PI of PT { fn dbl(self: @P) -> u128 { *self.x * 2 } }\n"),
 ];
 
@@ -70,6 +71,15 @@ pub fn run(ctx: &mut Ctx) {
             }
         });
     }
+    // the literal lattice: tricky literal lexemes in every position where a literal is evaluated
+    let lits = crate::text::literal_texts();
+    for (ci, chunk) in lits.chunks(60).enumerate() {
+        ctx.case(|| json!({"space":"sem-literals","chunk":ci,"first":chunk[0].0}), |ctx| {
+            for (name, text) in chunk {
+                check(ctx, text, json!({"literal-in-context":name}));
+            }
+        });
+    }
     // nesting
     let depths: Vec<usize> = match tier {
         Tier::Quick => vec![1, 2, 5, 20, 60],
@@ -79,6 +89,26 @@ pub fn run(ctx: &mut Ctx) {
         for &d in &depths {
             ctx.case(|| json!({"space":"sem-nesting","family":name,"depth":d}), |ctx| {
                 check(ctx, &f(d), json!({"family":name,"depth":d}));
+            });
+        }
+    }
+    // gap fillers: text that is trivia or skipped tokens for the parser but may leak into what plugins and later
+    // stages build from the nodes around it (`$x$` is the placeholder syntax of the plugin code templates)
+    const FILLERS: &[&str] = &[" $x$ ", " // $x$\n", " /* c */ ", " $ ", " \u{c} ", " é ", " #[a] ", " 'q ", " @ "];
+    let nseeds_f = tier.pick(SEEDS.len(), SEEDS.len());
+    for (name, src) in SEEDS.iter().take(nseeds_f) {
+        let pdb = crate::text::new_db();
+        let (root, _) = pdb.parse_virtual_with_diagnostics(*src);
+        let toks = token_ranges(&pdb, root);
+        let mut gaps: Vec<usize> = toks.iter().map(|(s, _, _)| *s).collect();
+        gaps.push(src.len());
+        let step = tier.pick(if SEEDS.iter().position(|(n, _)| n == name).unwrap_or(0) < 2 || *name == "plugins" { 1 } else { 3 }, 1);
+        let texts: Vec<(usize, &str, String)> = gaps.iter().step_by(step).flat_map(|g| FILLERS.iter().map(move |f| (*g, *f, format!("{}{}{}", &src[..*g], f, &src[*g..])))).collect();
+        for (ci, chunk) in texts.chunks(60).enumerate() {
+            ctx.case(|| json!({"space":"sem-gap-fillers","seed":name,"chunk":ci}), |ctx| {
+                for (g, f, m) in chunk {
+                    check(ctx, m, json!({"seed":name,"filler":f,"at_byte":g}));
+                }
             });
         }
     }
